@@ -99,6 +99,31 @@ theorem delivered_to_every_connected_node (c : Cfg) (o : Node) (steps : List Ste
   exact quiescent_covered (reached_inv c o steps)
     (cov_run steps hsteps (inv_originate c o) (fun i _ => hacc i) (cov_originate c o)) hq hp'
 
+/-! ## Termination -/
+
+/-- a sequence of deliveries, each of a message that is in flight at that moment -/
+def deliverAll (c : Cfg) : Net → List Nat → Option Net
+  | net, [] => some net
+  | net, k :: ks => if k < net.inflight.length then deliverAll c (deliver c net k).1 ks else none
+
+/-- **Gossip terminates**: every delivery strictly decreases `potential` (messages in flight plus, for every
+node that has not seen the item, its peer count plus one), so from any state at most `potential` deliveries
+can happen before the network is quiet — for every order of deliveries, every topology, any number of nodes,
+with adversarial and duplicated messages already in flight counted in the potential. -/
+theorem deliveries_bounded_by_potential (c : Cfg) (hwf : ∀ i, c.n ≤ i → c.peers i = []) (net net' : Net) (ks : List Nat)
+    (h : deliverAll c net ks = some net') : ks.length + potential c net' ≤ potential c net := by
+  induction ks generalizing net with
+  | nil => simp only [deliverAll, Option.some.injEq] at h; subst h; simp
+  | cons k ks ih =>
+    unfold deliverAll at h
+    split at h
+    · rename_i hk
+      have h1 := ih _ h
+      have h2 := deliver_decreases_potential c hwf net k hk
+      simp only [List.length_cons]
+      omega
+    · cases h
+
 /-! ## Refutation: a vertex parked at a relay is never forwarded (known finding)
 
 Line 0 — 1 — 2, origin 0. The item reaches relay 1 before its parent, so the relay's ledger refuses it
@@ -120,5 +145,8 @@ example : let net := reached { lineCfg with accepts := fun _ => true } 0 [.deliv
 /-- non-vacuity of `delivered_to_every_connected_node`: node 2 is connected to the origin -/
 example : Connected { lineCfg with accepts := fun _ => true } 0 2 :=
   .hop (i := 1) (.hop (i := 0) .origin (by decide)) (by decide)
+
+/-- the potential of the start: at most one message per peer entry of every node, plus one per node -/
+example : potential lineCfg (reached lineCfg 0 []) = 1 + (1 + 1) + (2 + 1) + (1 + 1) := by decide +kernel
 
 end Props.C11
